@@ -127,6 +127,11 @@ impl<T> ReadHandle<T> {
   /// Dekker store-load window: the writer's SeqCst fence in `modify` will
   /// observe our incremented counter before it drains readers.
   pub(crate) fn enter(&self) -> ReadGuard<T> {
+    #[cfg(all(excsn_fibre_verif, not(loom)))]
+    {
+      crate::sync::verif_hook::point(); // verification seam H11
+      crate::sync::verif_hook::read_guard_enter();
+    }
     loop {
       let idx = self.shared.live_idx.load(Ordering::SeqCst);
 
@@ -162,6 +167,8 @@ impl<T> Deref for ReadGuard<T> {
 impl<T> Drop for ReadGuard<T> {
   fn drop(&mut self) {
     self.shared.active_readers[self.idx].fetch_sub(1, Ordering::SeqCst);
+    #[cfg(all(excsn_fibre_verif, not(loom)))]
+    crate::sync::verif_hook::read_guard_exit(); // verification seam H11
   }
 }
 
@@ -181,6 +188,8 @@ impl<T> WriteHandle<T> {
   where
     F: FnMut(&mut T),
   {
+    #[cfg(all(excsn_fibre_verif, not(loom)))]
+    crate::sync::verif_hook::point(); // verification seam H11
     let _lock = self.writer_lock.lock();
     let live_idx = self.shared.live_idx.load(Ordering::SeqCst);
     let write_idx = 1 - live_idx;
